@@ -358,7 +358,7 @@ where I: Iterator<Item = E> + DoubleEndedIterator + ExactSizeIterator + Clone {
 }
 /// seeded random history with up to 4 live handles, explicit clones/drops and adapter observations
 pub fn iter_random<E: Probe, I>(o: &mut Out, def: u32, prof: &str, n_enabled: usize, mk: &dyn Fn() -> I, steps: usize, seed: u64)
-where I: Iterator<Item = E> + DoubleEndedIterator + ExactSizeIterator + Clone {
+where I: Iterator<Item = E> + DoubleEndedIterator + ExactSizeIterator + Clone + core::fmt::Debug {
     let mut rng = Rng::new(seed ^ ((def as u64) << 20) ^ 0xabcdef);
     let mut hs: Vec<Option<I>> = vec![Some(mk()), None, None, None];
     log_new(o, def, prof, 10, hs[0].as_ref().unwrap());
@@ -386,8 +386,15 @@ where I: Iterator<Item = E> + DoubleEndedIterator + ExactSizeIterator + Clone {
         } else if choice <= 5 {
             // adapters built on the iterator (observations on a clone; the handle does not move)
             let it = hs[a].as_ref().unwrap();
-            let kind = rng.below(4);
+            let kind = rng.below(5);
             let small = rng.below(n_enabled as u64 + 2) as usize;
+            if kind == 4 {
+                // Debug of the iterator: `<Enum>Iter { len: <remaining> }`
+                let d = catch(|| format!("{:?}", it));
+                o.line(&format!("{{\"op\":\"itobs\",\"def\":{},\"prof\":\"{}\",\"call\":\"debug\",\"h\":{},\"n\":0,\"big\":false,\"panic\":{},\"items\":{}}}",
+                    def, prof, 10 + a, jbool(d.is_err()), jcps(&d.unwrap_or_default())));
+                continue;
+            }
             let (name, n, big): (&str, usize, bool) = match kind {
                 0 => ("skip", if rng.below(5) == 0 { usize::MAX } else { small }, false),
                 1 => ("step_by", small + 1, false),
